@@ -78,6 +78,8 @@ def rtLine (c : Cmd) (env0 env : Env) : String :=
 
 /-- byte range `[lo, hi)` of a fixed-width field's slot inside the encoded command -/
 def slotRange (c : Cmd) (f : String) : Option (Nat × Nat) := do
+  -- a field Marshal overwrites (`c.F = len(c.G)`) does not carry the caller's value
+  if c.marshal.any (fun s => match s with | .assignLen g _ _ => g == f | _ => false) then none
   let m ← layoutM c.marshal
   let rec go (ss : List Slot) (pOff dOff : Nat) : Option (Blk × Nat × Nat) :=
     match ss with
